@@ -441,9 +441,13 @@ func (env *Env) evalLV(x *SExpr) (*Loc, bool) {
 			return &Loc{Kind: LElem, Obj: sl.Elem(), Ref: base.S[0], Idx: env.asInt(idx), T: sl.Elem()}, true
 		}
 	case "ident":
-		if env.lookup != nil {
-			// locals are cells, not heap locations
+		if _, isVar := env.vars[x.Name]; isVar {
 			return nil, false
+		}
+		if sp, ok := e.P.ByPkg[env.pkgPath]; ok {
+			if g, ok := sp.Members[x.Name].(*ssa.Global); ok {
+				return e.globalLoc(g), true
+			}
 		}
 	}
 	return nil, false
@@ -782,9 +786,20 @@ func (env *Env) call(x *SExpr) Value {
 	case "int":
 		v := env.eval(args[0])
 		if isFloat(v.T) {
+			if env.inQuant > 0 {
+				// inside a quantifier the defining axiom cannot be emitted as a ground fact: state it inline
+				r := "(f2i64 " + v.S[0] + " " + v.S[1] + ")"
+				return intVal(r)
+			}
 			return intVal(e.floatToInt(v, 64, false))
 		}
 		return Value{T: tInt, S: v.S}
+	case "addrof":
+		loc, ok := env.evalLV(args[0])
+		if !ok || loc.Kind != LHeap || loc.Path != "" {
+			specFail("addrof needs a package-level variable")
+		}
+		return Value{T: types.NewPointer(loc.T), S: []string{loc.Ref}}
 	case "fresh":
 		v := env.eval(args[0])
 		if env.old == nil {
